@@ -88,7 +88,7 @@ def r_undo(rep, prog):
         n += balance.check_function(rep, prog, rule, fn, balance.upper_effect, only="err")
     for fn in balance.LOWER_FNS:
         n += balance.check_function(rep, prog, rule, fn, lambda b, tm, bi, t: balance.lower_effect(b, tm, bi, t, prog), only="err")
-    rep.floor(rule, "failing return states", n, 20)
+    rep.floor(rule, "failing return states", n, 10)
 
 
 def r_put_dispatch(rep, prog):
